@@ -2,6 +2,7 @@ import HcipyVerif.Lemmas.ModeBasis
 import HcipyVerif.Lemmas.Lstsq
 import HcipyVerif.Lemmas.GaussJordan
 import HcipyVerif.Lemmas.Mirror
+import HcipyVerif.Lemmas.SliceSegment
 
 /-!
 # C14 — Mode bases behave identically in every storage form; mirrors track actuators
@@ -125,14 +126,141 @@ theorem getitem_storage_independent (a b : Basis K) (ha : WF a) (hb : WF b) (h :
       rw [selectCols_npix, selectCols_npix, selectCols_nmodes, selectCols_nmodes,
         toDense_selectCols a ha, toDense_selectCols b hb, h1, h3]
 
+/-! #### `slice.indices` exactly (the executed `sliceIndices` / `rangeLen` / `rangeList`) -/
+
+/-- **The length of a range is exact**: for every start, stop and non-zero step, `k` is below
+`len(range(s, e, st))` exactly when `s + k·st` lies strictly before `e` in the direction of the
+step — so `rangeList s e st` enumerates, in order, precisely the set
+`{ s + k·st | k ∈ ℕ, s + k·st before e }` and nothing else. -/
+theorem slice_count_exact (s e st : Int) (hst : st ≠ 0) (k : Nat) :
+    k < rangeLen s e st ↔ (0 < st → s + k * st < e) ∧ (st < 0 → e < s + k * st) := by
+  unfold rangeLen
+  rcases lt_or_gt_of_ne hst with hneg | hpos
+  · have h1 : ¬ st > 0 := by omega
+    rw [if_neg h1]
+    have hp : 0 < -st := by omega
+    by_cases hes : e < s
+    · rw [if_pos hes]
+      have hnn : 0 ≤ (s - e - st - 1) / (-st) := Int.ediv_nonneg (by omega) (by omega)
+      have e2 : s - e + -st - 1 = s - e - st - 1 := by ring
+      constructor
+      · intro h
+        have : (k : Int) < (s - e - st - 1) / (-st) := by omega
+        have := (ceil_lt k (s - e) (-st) hp).mp (by rw [e2]; exact this)
+        exact ⟨fun h => by omega, fun _ => by nlinarith⟩
+      · intro ⟨_, h⟩
+        have h' := h hneg
+        have : (k : Int) * (-st) < s - e := by nlinarith
+        have := (ceil_lt k (s - e) (-st) hp).mpr this
+        rw [e2] at this
+        omega
+    · rw [if_neg hes]
+      constructor
+      · intro h; omega
+      · intro ⟨_, h⟩
+        have h' := h hneg
+        have : (0:Int) ≤ k := Int.natCast_nonneg k
+        nlinarith
+  · have h1 : st > 0 := hpos
+    rw [if_pos h1]
+    by_cases hse : s < e
+    · rw [if_pos hse]
+      have hnn : 0 ≤ (e - s + st - 1) / st := Int.ediv_nonneg (by omega) (by omega)
+      constructor
+      · intro h
+        have : (k : Int) < (e - s + st - 1) / st := by omega
+        have := (ceil_lt k (e - s) st hpos).mp this
+        exact ⟨fun _ => by linarith, fun h => by omega⟩
+      · intro ⟨h, _⟩
+        have h' := h hpos
+        have : (k : Int) * st < e - s := by linarith
+        have := (ceil_lt k (e - s) st hpos).mpr this
+        omega
+    · rw [if_neg hse]
+      constructor
+      · intro h; omega
+      · intro ⟨h, _⟩
+        have h' := h hpos
+        have : (0:Int) ≤ k := Int.natCast_nonneg k
+        nlinarith
+
+/-- **`slice.indices(n)` keeps every selected position inside `[0, n)`** for all arguments
+(negative, out of range, missing, negative steps): the `toNat` in `rangeList` loses nothing and
+`selectCols` never reads outside the matrix. -/
+theorem slice_indices_inbounds (n : Nat) (a b c : Option Int) (s e st : Int)
+    (h : sliceIndices n a b c = some (s, e, st)) (k : Nat) (hk : k < rangeLen s e st) :
+    0 ≤ s + k * st ∧ s + k * st < n := by
+  have hst : st ≠ 0 := (sliceIndices_step n a b c s e st h).1
+  have hr := (slice_count_exact s e st hst k).mp hk
+  have hk0 : (0:Int) ≤ k := Int.natCast_nonneg k
+  unfold sliceIndices at h
+  by_cases h0 : c.getD 1 = 0
+  · simp [h0] at h
+  · simp only [h0, if_false, Option.some.injEq, Prod.mk.injEq] at h
+    obtain ⟨hs, he, hc⟩ := h
+    rw [hc] at hs he
+    rcases lt_or_gt_of_ne hst with hneg | hpos
+    · have hb := hr.2 hneg
+      simp only [hneg, if_true] at hs he
+      have hs' : s ≤ n - 1 := by
+        rw [← hs]; cases a <;> simp <;> split_ifs <;> omega
+      have he' : -1 ≤ e := by
+        rw [← he]; cases b <;> simp <;> split_ifs <;> omega
+      constructor
+      · omega
+      · nlinarith
+    · have hb := hr.1 hpos
+      have hn : ¬ st < 0 := by omega
+      simp only [hn, if_false] at hs he
+      have hs' : 0 ≤ s := by
+        rw [← hs]; cases a <;> simp <;> split_ifs <;> omega
+      have he' : e ≤ n := by
+        rw [← he]; cases b <;> simp <;> split_ifs <;> omega
+      constructor
+      · nlinarith
+      · omega
+
+/-- **The positions a slice selects are exactly `{start + k·step}` of the normalised triple**, for
+all arguments: `sliceIdx` fails iff the step is zero (`ValueError`); otherwise, with
+`(s, e, st) = slice(a, b, c).indices(n)`, the list has one entry per `k` with `s + k·st` strictly
+before `e`, the `k`-th entry *is* `s + k·st` (as an integer — no truncation), and it is a valid
+column index. -/
+theorem sliceIdx_is_range (n : Nat) (a b c : Option Int) :
+    (sliceIdx n a b c = none ↔ c.getD 1 = 0) ∧
+    ∀ s e st, sliceIndices n a b c = some (s, e, st) →
+      ∃ l, sliceIdx n a b c = some l ∧ l.length = rangeLen s e st ∧
+        (∀ k : Nat, k < l.length ↔ (0 < st → s + k * st < e) ∧ (st < 0 → e < s + k * st)) ∧
+        ∀ k (hk : k < l.length), ((l[k] : Nat) : Int) = s + k * st ∧ l[k] < n := by
+  constructor
+  · unfold sliceIdx sliceIndices
+    by_cases h0 : c.getD 1 = 0 <;> simp [h0]
+  · intro s e st h
+    have hst := (sliceIndices_step n a b c s e st h).1
+    refine ⟨rangeList s e st, by simp [sliceIdx, h], by simp [rangeList], ?_, ?_⟩
+    · intro k
+      simp only [rangeList, List.length_map, List.length_range]
+      exact slice_count_exact s e st hst k
+    · intro k hk
+      have hk' : k < rangeLen s e st := by simpa [rangeList] using hk
+      have hb := slice_indices_inbounds n a b c s e st h k hk'
+      simp only [rangeList, List.getElem_map, List.getElem_range]
+      constructor
+      · exact Int.toNat_of_nonneg hb.1
+      · omega
+
+/-- the normalised triple exists for every non-zero step: e.g. `slice(None, None, -1).indices(3) = (2, -1, -1)` -/
+example : sliceIndices 3 none none (some (-1)) = some (2, -1, -1) ∧ sliceIdx 3 none none (some (-1)) = some [2, 1, 0] := by
+  decide
+
 /-- A window `k : k+1` selects exactly column `k` … -/
 theorem sliceIdx_window (n k : Nat) (hk : k < n) :
     sliceIdx n (some (k : Int)) (some ((k : Int) + 1)) none = some [k] := by
   have h1 : ¬ ((k : Int) < 0) := by omega
   have h2 : ¬ ((k : Int) + 1 < 0) := by omega
-  have h3 : min (k : Int) (n : Int) = k := by omega
-  have h4 : min ((k : Int) + 1) (n : Int) = k + 1 := by omega
-  simp [sliceIdx, h1, h2, h3, h4]
+  have h3 : ¬ ((k : Int) > (n : Int)) := by omega
+  have h4 : ¬ ((k : Int) + 1 > (n : Int)) := by omega
+  have h5 : ((k : Int) + 1 - k + 1 - 1) / 1 = 1 := by omega
+  simp [sliceIdx, sliceIndices, rangeList, rangeLen, h1, h2, h3, h4]
 
 /-- … and the code as pinned (D22) answered it with a bare mode on **every** sparse basis,
 while every dense basis answers with a one-mode `ModeBasis`: the two storage forms of one and
@@ -789,33 +917,56 @@ end mirror
 section phases
 variable {K : Type} [Field K] [DecidableEq K]
 
-theorem applyPhaseConj_applyPhase (e : List (PVal K)) (d : List K) (h : e.length = d.length) :
-    applyPhaseConj (applyPhase e d) d = e := by
-  induction e generalizing d with
-  | nil => cases d <;> rfl
-  | cons x xs ih =>
-    cases d with
-    | nil => simp at h
-    | cons t ts =>
-      have := ih ts (by simpa using h)
-      simp only [applyPhase, applyPhaseConj, List.zipWith_cons_cons] at this ⊢
-      rw [this]
-      cases x
-      simp
+/-- **Closed form of the tip / tilt influence function of a segment** (the executed `tiltMode`, which
+the driver compares with the matrix `SegmentedDeformableMirror` builds): for an indicator segment
+(`s_i ∈ {0, 1}`) that covers `k` of the `N` grid points, `0 < k < N` as numbers of the field, the
+mode is `s_i · (c_i − c̄)` with `c̄ = (Σ_{i ∈ segment} c_i) / k` the mean coordinate over the segment.
+Hence, by `mirror_surface_inv`, the surface of a segment under `(piston, tip, tilt) = (p, t, u)` is
+the plane `p + t·(x − x̄) + u·(y − ȳ)` on its support and zero elsewhere — exact in rationals. -/
+theorem segment_tilt_mode_closed_form (s c : List K) (hs : ∀ a ∈ s, a * a = a)
+    (hlen : c.length = s.length) (hN : (s.length : K) ≠ 0) (hk : s.sum ≠ 0)
+    (hkN : s.sum ≠ (s.length : K)) :
+    tiltMode s c =
+      List.zipWith (fun si ci => si * (ci - (List.zipWith (· * ·) s c).sum / s.sum)) s c := by
+  unfold tiltMode mean
+  have hlen1 : (List.zipWith (· * ·) s c).length = s.length := by simp [hlen]
+  have hlen2 : (List.zipWith (· * ·) (List.zipWith (· * ·) s c) s).length = s.length := by simp [hlen]
+  rw [map_sq_ind s hs]
+  dsimp only
+  rw [sum_zipWith_mul_ind s c hs, hlen1, hlen2]
+  set N : K := (s.length : K)
+  set k : K := s.sum
+  set S : K := (List.zipWith (· * ·) s c).sum
+  have h3 : N - k ≠ 0 := sub_ne_zero.mpr (Ne.symm hkN)
+  have hnorm : k / N - k / N * (k / N) ≠ 0 := by
+    have : k / N - k / N * (k / N) = k * (N - k) / (N * N) := by field_simp
+    rw [this]
+    exact div_ne_zero (mul_ne_zero hk h3) (mul_ne_zero hN hN)
+  have hβ : (S / N - k / N * (S / N)) / (k / N - k / N * (k / N)) = S / k := by
+    rw [div_eq_div_iff hnorm hk]
+    field_simp
+  rw [if_neg hnorm, hβ]
+  clear_value N k S
+  clear hlen1 hlen2 hnorm hβ h3 hk hkN hN
+  induction s generalizing c with
+  | nil => simp
+  | cons a s ih =>
+    cases c with
+    | nil => simp
+    | cons b c =>
+      simp only [List.zipWith_cons_cons]
+      rw [ih c (fun x hx => hs x (by simp [hx])) (by simpa using hlen)]
+      congr 1
+      ring
 
-theorem power_applyPhase (nsq : K → K) (e : List (PVal K)) (d : List K) (h : e.length = d.length) :
-    power nsq (applyPhase e d) = power nsq e := by
-  unfold power
-  congr 1
-  induction e generalizing d with
-  | nil => cases d <;> rfl
-  | cons x xs ih =>
-    cases d with
-    | nil => simp at h
-    | cons t ts =>
-      have := ih ts (by simpa using h)
-      simp only [applyPhase, List.zipWith_cons_cons, List.map_cons] at this ⊢
-      rw [this]
+/-- the hypotheses are satisfiable: a segment of two of three points, and the closed form evaluated -/
+example : tiltMode [(1 : ℚ), 1, 0] [0, 2, 7] = [-1, 1, 0] ∧
+    (∀ a ∈ [(1 : ℚ), 1, 0], a * a = a) ∧ (([(1 : ℚ), 1, 0].length : ℚ) ≠ 0) ∧
+    ([(1 : ℚ), 1, 0].sum ≠ 0) ∧ ([(1 : ℚ), 1, 0].sum ≠ (([(1 : ℚ), 1, 0].length : ℚ))) := by
+  refine ⟨by decide +kernel, ?_, by norm_num, by norm_num, by norm_num⟩
+  intro a ha
+  simp at ha
+  rcases ha with rfl | rfl <;> norm_num
 
 /-- **`phase_for`, `forward` and `backward` see `IF · actuators`** in every reachable state: the
 phase is `2π · (2 · IF·a / λ)` and the reflected field is the incoming one times `exp(±2πi ·` that
